@@ -16,4 +16,6 @@ Definition run (comp : Z) (inp : list Z) : list Z :=
   else if comp =? 13 then run_pqueue_ops inp
   else if comp =? 20 then run_ctor inp
   else if comp =? 21 then run_history inp
+  else if comp =? 30 then run_syx_write inp
+  else if comp =? 31 then run_syx_read inp
   else [-3].
